@@ -103,6 +103,7 @@ class Analyzer:
     def __init__(self, u, fn, assume, reqs, thresholds=None):
         self.u = u
         self.fn = fn
+        self.pos_why = {}
         self.assume = assume          # param name -> lower bound of avail at entry
         self.reqs = reqs              # callee name -> {param index: k}
         self.cfg = fn.cfg()
@@ -346,9 +347,14 @@ class Analyzer:
             ok = False
             why = ''
             ix = strip_casts(idx)
+            below = [a[1] for a in st.acc if isinstance(a[0], tuple) and a[0][0] == 'lt' and ix.get('k') == 'ref' and a[0][1] == ix['d']
+                     and (('cnt', key, 0), a[1]) in st.acc] if (kind == 'cur' and c == 0) else []
             if ix.get('k') == 'ref' and ((kind, key, c), ix['d']) in st.acc:
                 ok = True
                 why = 'guarded: (%s) + %s < length established for this value of %s' % (term, ix['n'], ix['n'])
+            elif below and iv[0] >= 0:
+                ok = True
+                why = 'index below a count of bytes that was shown to be readable at %s' % term
             elif av is not None and iv[1] < POS and av[0] >= iv[1] + 1 and iv[0] >= 0:
                 ok = True
                 why = 'index <= %d, avail >= %d' % (iv[1], av[0])
@@ -374,7 +380,7 @@ class Analyzer:
     # ---- transfer -------------------------------------------------------------------------------------------
     def kill_var(self, st, did):
         st.int.pop(did, None)
-        st.acc = frozenset(a for a in st.acc if a[1] != did)
+        st.acc = frozenset(a for a in st.acc if a[1] != did and not (isinstance(a[0], tuple) and a[0][0] == 'lt' and a[0][1] == did))
 
     def kill_term(self, st, kind, key):
         st.acc = frozenset(a for a in st.acc if not ((a[0][0] == kind or (kind == 'cur' and a[0][0] == 'cnt')) and a[0][1] == key))
@@ -383,9 +389,19 @@ class Analyzer:
         self.kill_var(st, ref['d'])
         if iv != TOP:
             st.int[ref['d']] = iv
+        if iv == (0, 0):
+            self.zero_count(st, ref['d'])
+
+    def zero_count(self, st, did):
+        # zero bytes are readable at every cursor that is not behind its end
+        for B, av in st.buf.items():
+            if av[0] >= 0:
+                st.acc = st.acc | {(('cnt', B, 0), did)}
 
     def transfer(self, node, st, record=False):
         st = st.copy()
+        if record:
+            self.check_published(node, st)
         for ev in node_effects(node):
             k = ev.kind
             if k == 'load':
@@ -408,6 +424,8 @@ class Analyzer:
                     iv = self.ieval(ev.rhs, st)
                     if iv != TOP:
                         st.int[d['d']] = iv
+                    if iv == (0, 0):
+                        self.zero_count(st, d['d'])
                     if d['d'] in self.offset_copies:
                         b, n = self.offset_copies[d['d']]
                         view = '%s#%s' % (b, n)
@@ -545,27 +563,18 @@ class Analyzer:
         if b:
             return
         l = strip_casts(lhs)
-        if l.get('k') == 'mem' and l['f'] == 'position' and op == '=' and record:
-            # BND5: the failure position that gets published must lie inside the buffer
-            r = strip_casts(a['r'])
-            ok = False
-            why = 'not one of: 0, B.offset with a readable byte proven, B.length - c with length >= c proven'
-            c = const_val(a['r'])
-            bo = self.buf_field(r, 'offset')
-            if c is not None:
-                ok = c == 0
-                why = 'constant %d' % c
-            elif bo:
-                av = st.buf.get(bo, TOP)
-                ok = av[0] >= 1
-                why = '%s.offset with avail >= %s' % (bo, av[0] if av[0] > NEG else 'nothing')
-            elif r.get('k') == 'bin' and r['op'] == '-' and self.buf_field(r['l'], 'length') and const_val(r['r']) is not None:
-                bl = self.buf_field(r['l'], 'length')
-                cc = const_val(r['r'])
-                ok = cc >= 1 and st.len.get(bl, 0) >= cc
-                why = '%s.length - %d with length >= %d' % (bl, cc, st.len.get(bl, 0))
-            self.site('BND5', a, 'published failure position %s lies inside the buffer' % expr_str(a)[:50], ok, why,
-                      'position:' + expr_str(r)[:40])
+        if l.get('k') == 'mem' and l['f'] == 'position':
+            # BND5: what is known about a failure position when it is stored; the verdict is given where it is published
+            key = expr_str(l)
+            st.acc = frozenset(f for f in st.acc if not (f[0] in ('posin', 'posoff', 'poswhy') and f[1] == key))
+            if op == '=':
+                kind, why = self.position_value(a['r'], st)
+                if kind == 'in':
+                    st.acc = st.acc | {('posin', key)}
+                elif kind is not None:
+                    st.acc = st.acc | {('posoff', key, kind)}
+                self.pos_why[key + '@%d' % a['id']] = why
+                st.acc = st.acc | {('poswhy', key, a['id'])}
         if l.get('k') == 'ref':
             t = self.u.ty(l.get('ty0', l['ty']))
             if t['c'] == 'ptr':
@@ -639,7 +648,12 @@ class Analyzer:
                     st.ptr[t['n']] = _add(st.ptr[t['n']], -ev.delta)
             elif ty['c'] == 'int':
                 old = st.int.get(t['d'])
+                # offset + v < length and then v++: offset + v <= length, v bytes are readable at the cursor
+                counted = [a[0][1] for a in st.acc if isinstance(a[0], tuple) and a[0][0] == 'cur' and a[0][2] == 0 and a[1] == t['d']] \
+                    if ev.delta == 1 else []
                 self.kill_var(st, t['d'])
+                for B in counted:
+                    st.acc = st.acc | {(('cnt', B, 0), t['d'])}
                 if old is not None:
                     st.int[t['d']] = _add(old, ev.delta)
                 elif ty.get('unsigned') and ev.delta > 0:
@@ -802,6 +816,11 @@ class Analyzer:
         if op in ('>', '>='):
             L, Rr = Rr, L
             op = '<' if op == '>' else '<='
+        if op == '<' and L.get('k') == 'mem' and L.get('f') == 'position' and self.buf_field(Rr, 'length'):
+            # a stored failure position that is the offset of B and is now known to be below B.length lies inside B
+            key = expr_str(L)
+            if ('posoff', key, self.buf_field(Rr, 'length')) in st.acc:
+                st.acc = frozenset(f for f in st.acc if not (f[0] == 'posoff' and f[1] == key)) | {('posin', key)}
         return self.refine_rel(L, op, Rr, st)
 
     def side(self, x, st):
@@ -863,6 +882,64 @@ class Analyzer:
             self.tracked_ptrs.add(key)
         return True
 
+    def position_value(self, r0, st):
+        """('in', why) when the value is shown to be 0 or inside buffer B; (B, why) when it is B.offset without such a proof;
+        (None, why) otherwise"""
+        r = strip_casts(r0)
+        c = const_val(r0)
+        if c is not None:
+            return ('in' if c == 0 else None), 'constant %d' % c
+        bo = self.buf_field(r, 'offset')
+        if bo:
+            av = st.buf.get(bo, TOP)
+            if av[0] >= 1:
+                return 'in', '%s.offset with a readable byte there' % bo
+            return bo, '%s.offset, not shown to be smaller than %s.length' % (bo, bo)
+        if r.get('k') == 'bin' and r['op'] == '-' and self.buf_field(r['l'], 'length') and const_val(r['r']) is not None:
+            bl = self.buf_field(r['l'], 'length')
+            cc = const_val(r['r'])
+            if cc >= 1 and st.len.get(bl, 0) >= cc:
+                return 'in', '%s.length - %d with length >= %d' % (bl, cc, cc)
+            return None, '%s.length - %d without length >= %d' % (bl, cc, cc)
+        if r.get('k') == 'cond':
+            out = []
+            for truth, arm in ((True, r['t']), (False, r['e'])):
+                s2 = self.refine_cond(r['c'], truth, st)
+                if s2 is None:
+                    continue
+                out.append(self.position_value(arm, s2))
+            if out and all(k == 'in' for (k, _w) in out):
+                return 'in', ' / '.join(w for (_k, w) in out)
+            return None, ' / '.join(w for (_k, w) in out)
+        return None, 'not one of: 0, B.offset with a readable byte proven, B.length - c with length >= c proven'
+
+    def check_published(self, node, st):
+        """BND5: a failure position is read (to form the parse end) or copied out with its record only when it lies inside the buffer"""
+        root = node.expr
+        if root is None or node.kind == 'branch':
+            return
+        stored = set()
+        for x in walk(root):
+            if x.get('k') == 'bin' and x.get('op') in ASSIGN_OPS:
+                stored.add(strip_casts(x['l']).get('id'))
+        for x in walk(root):
+            x0 = x
+            keys = []
+            if x0.get('k') == 'mem' and x0.get('f') == 'position' and x0.get('id') not in stored:
+                keys.append(expr_str(x0))
+            elif x0.get('k') == 'bin' and x0.get('op') == '=' and strip_casts(x0['r']).get('k') == 'ref' and \
+                    self.u.ty(strip_casts(x0['r']).get('ty0', strip_casts(x0['r'])['ty']))['c'] == 'record':
+                rn = strip_casts(x0['r'])['n']
+                keys += [f[1] for f in st.acc if f[0] in ('posin', 'posoff', 'poswhy') and f[1] == rn + '.position']
+                keys = sorted(set(keys))
+            for key in keys:
+                ok = ('posin', key) in st.acc
+                whys = sorted(self.pos_why.get(key + '@%d' % f[2], '') for f in st.acc if f[0] == 'poswhy' and f[1] == key)
+                self.site('BND5', x0, 'published failure position %s lies inside the buffer' % key, ok,
+                          ('; '.join(w for w in whys if w) or 'shown on every path to this point') if ok else
+                          ('here it can be %s' % ('; '.join(w for w in whys if w) or 'a value stored on only some of the paths')),
+                          'position:%s:%d' % (key, node.line))
+
     def _count_minus(self, d):
         """(decl of v, k, name of v) when the local d has the single definition v - k with a constant k >= 0, v is never
         reassigned, and v cannot be smaller than k (k == 0, or v is a parameter that every call site gives a constant >= k):
@@ -896,6 +973,8 @@ class Analyzer:
 
     def refine_rel(self, L, op, Rr, st):
         a, b = self.side(L, st), self.side(Rr, st)
+        if a[0] == 'int' and b[0] == 'int' and op == '<' and a[1].get('d') != b[1].get('d'):
+            st.acc = st.acc | {(('lt', a[1]['d']), b[1]['d'])}
         # a view B#v shares B's length
         if a[0] == 'off' and b[0] == 'len' and a[1].split('#')[0] == b[1]:
             b = ('len', a[1])
